@@ -33,7 +33,7 @@ FLOOR = {"pipeline": 1, "ccp:pointer-fold-idx": 1, "cc:fold>1:TorchEvidenceLayer
 
 
 def plan(tier, seed):
-    n = 7 if tier == "quick" else 560
+    n = 14 if tier == "quick" else 560
     cases = []
     for name in ["mixed", "mono", "kron3", "mixing", "poly", "complex", "const", "multi", "interior", "sparse", "structured", "samekind-fold"]:
         for k in range(n):
